@@ -283,7 +283,7 @@ from .c12_cards import r3_card_grid  # noqa: E402
 from .c12_parse import r4_parse_back  # noqa: E402
 
 RULES = [
-    ("C12-R3", r3_card_grid, 215),
+    ("C12-R3", r3_card_grid, 218),
     ("C12-R4", r4_parse_back, 45),
     ("C12-R1", r1_ladder, 190),
     ("C12-R1b", r1b_integer_arm, 2),
@@ -301,7 +301,11 @@ EXPLANATION = ("Static analysis on values. format_float8/16 are evaluated on abs
                "evaluated on that text and _rdcomma on the comma forms and must return the fields one for one; rdcards is evaluated on concrete "
                "first lines (first separator of a free-field card at index 1..8, '*' of a large-field card at index 1..7) and the reader it "
                "chooses, with the text and layout it hands over, must return the card's fields; nas_sscanf is evaluated on an "
-               "instance of every class of text the formatters emit.")
+               "instance of every class of text the formatters emit (regular expressions - re.sub / compiled patterns with count, flags, "
+               "keywords - are applied to the literal text). The writers are also evaluated on the value of a real field: a path of the "
+               "writer's own for some values (a whole-number fast path, a literal for zero) must fill W columns for every sign and decade of "
+               "the values that take it and may cut the fraction only where the path has tested x == int(x); the symbolic cards are then "
+               "written once per such path.")
 MANIFEST = {
     "text": "Partial claim decided statically: (1) for every decade in which fixed notation carries more digits than the scientific form, "
             "format_float8/format_float16 render fixed notation with sign+digits+point+decimals = the field width exactly (maximal precision), "
@@ -311,7 +315,8 @@ MANIFEST = {
             "two-stage rounding margin, and render zero in W characters. (3) nas_sscanf returns the denoted number for an instance of every "
             "class of text (1) and (2) emit, integers and blanks. (4) wtcard8 / wtcard16 / wtcard16d put every field of symbolic cards "
             "(1..60 fields around the line breaks, integer / real / string / blank, whole blank lines) into its own W-wide slot of the "
-            "8 + k*W grid with continuation heads the reader accepts; _rdfixed returns those fields one for one from that text, _rdcomma from "
+            "8 + k*W grid with continuation heads the reader accepts, a real field filling W columns on every path the writer has for its "
+            "value (formatter call, or a rendering of the writer's own decided per sign / decade); _rdfixed returns those fields one for one from that text, _rdcomma from "
             "the comma forms (',' '+,' ' ,' and named continuation fields, short lines); rdcards hands a free-field card to a reader that "
             "returns its fields wherever the first separator sits (first fields of 1..8 characters, padded / large-field names), a "
             "large-field card wherever the writers put the '*' (index 1..7) and a small-field card for names of 1..8 characters. "
